@@ -1058,7 +1058,7 @@ func (r *runner) schedExec(line string, k rawKey, strict, sorted bool) bool {
 	case err = <-done:
 	case <-st.first:
 		queued = true
-	case <-time.After(20 * time.Second):
+	case <-time.After(hx.ScaledTimeout(20 * time.Second)):
 		r.out.mismatch = line + ": Execute neither returned nor sent an update"
 		return false
 	}
@@ -1098,7 +1098,7 @@ func (r *runner) schedExec(line string, k rawKey, strict, sorted bool) bool {
 	cancel()
 	select {
 	case <-done:
-	case <-time.After(20 * time.Second):
+	case <-time.After(hx.ScaledTimeout(20 * time.Second)):
 		r.out.mismatch = line + ": cancelled Execute did not return"
 		return false
 	}
